@@ -79,6 +79,8 @@ pub struct Log {
     pub app_results: Vec<(String, Option<Result<(), String>>)>,
     pub notes: Vec<String>,
     pub gate: Vec<GateStats>,
+    /// all clients are connected and the applications have been started
+    pub app_started: bool,
 }
 
 pub type Shared = Rc<RefCell<Log>>;
@@ -95,6 +97,8 @@ pub struct Bench {
     pub conn_tasks: Vec<TaskId>,
     pub app_tasks: Vec<TaskId>,
     pub conn_handles: Vec<Rc<RefCell<Option<aldrin_broker::ConnectionHandle>>>>,
+    /// handle of client 0, for harness-driven Handle::shutdown
+    pub victim_handle: Rc<RefCell<Option<Handle>>>,
 }
 
 pub const HORIZON: u64 = 30_000;
@@ -102,6 +106,12 @@ pub const HORIZON: u64 = 30_000;
 impl Bench {
     /// Builds the system. Application tasks start once every client is connected.
     pub fn new(clients: &[ClientCfg], apps: Vec<(String, App)>) -> Self {
+        Self::with_options(clients, apps, false)
+    }
+
+    /// `keep_victim_handle`: the harness keeps a handle of client 0 (for a harness-driven
+    /// `Handle::shutdown`); note that this keeps that client from stopping by itself.
+    pub fn with_options(clients: &[ClientCfg], apps: Vec<(String, App)>, keep_victim_handle: bool) -> Self {
         let mut exec = Exec::new();
         let log: Shared = Rc::new(RefCell::new(Log::default()));
         let broker = Broker::new();
@@ -111,6 +121,7 @@ impl Bench {
         let mut conn_tasks = Vec::new();
         let mut conn_handles = Vec::new();
         let mut handle_rx: Vec<oneshot::Receiver<Handle>> = Vec::new();
+        let victim_handle: Rc<RefCell<Option<Handle>>> = Rc::new(RefCell::new(None));
         {
             let mut l = log.borrow_mut();
             l.client_results = vec![None; clients.len()];
@@ -186,6 +197,8 @@ impl Bench {
             app_tasks.push(t);
         }
         let _ = n_apps;
+        let vh = victim_handle.clone();
+        let lstart = log.clone();
         exec.spawn("start", async move {
             let mut hs = Vec::new();
             for rx in handle_rx {
@@ -194,6 +207,10 @@ impl Bench {
                     Err(_) => return,
                 }
             }
+            if keep_victim_handle {
+                *vh.borrow_mut() = hs.first().cloned();
+            }
+            lstart.borrow_mut().app_started = true;
             for s in starts {
                 let _ = s.send(hs.clone());
             }
@@ -207,6 +224,7 @@ impl Bench {
             conn_tasks,
             app_tasks,
             conn_handles,
+            victim_handle,
         }
     }
 
